@@ -71,6 +71,23 @@ def _axis_worker(item):
             os.remove(sgy)
         g, words = _read_geom(p)
         out = {'g': g, 'words': words, 'il': il.tolist(), 'xl': xl.tolist()}
+        if c.get('reblock'):        # the same axes after re-blocking to the z-slice layout (needs a 2-bit default-layout file)
+            from seismic_zfp.conversion import SgzConverter
+            src2, q2 = p + '.2bit.sgz', p + '.adv.sgz'
+            writers.numpy_to_sgz(src2, cube, 2, (4, 4, -1), ilines=il.astype(np.int64), xlines=xl.astype(np.int64), samples=np.arange(4) * 4.0)
+            with env.quiet():
+                with SgzConverter(src2) as cv:
+                    cv.convert_to_adv_sgz(q2)
+            out['reblock'] = {'g': _read_geom(q2)[0]}
+            os.remove(src2)
+            os.remove(q2)
+        if c.get('from_header'):    # NumPy route: axes taken from supplied INLINE_3D / CROSSLINE_3D header arrays
+            q3 = p + '.hdr.sgz'
+            th = {int(segyio.TraceField.INLINE_3D): np.broadcast_to(il[:, None], (len(il), len(xl))).astype(np.int64),
+                  int(segyio.TraceField.CROSSLINE_3D): np.broadcast_to(xl[None, :], (len(il), len(xl))).astype(np.int32)}
+            writers.numpy_to_sgz(q3, cube, 32, (4, 4, -1), samples=np.arange(4) * 4.0, trace_headers=th)
+            out['from_header'] = {'g': _read_geom(q3)[0]}
+            os.remove(q3)
         if c.get('crop'):
             from seismic_zfp.cropping import SgzCropper
             from seismic_zfp.conversion import SgzConverter
@@ -168,7 +185,7 @@ def plan(run):
     for j, t in enumerate(T):
         x = T[perm[j]]
         cases.append({'il': t, 'xl': x, 'K': K if j % 2 == 0 else 1, 'route': 'segy' if j % 16 == 5 else 'numpy',
-                      'crop': (1 + j % 3) if (j % 9 == 0 and t['count'] >= 5) else None})
+                      'crop': (1 + j % 3) if (j % 9 == 0 and t['count'] >= 5) else None, 'reblock': j % 40 == 7, 'from_header': j % 40 == 13})
         if j % 2 == 0 and j % 6 == 0:
             cases.append({'il': x, 'xl': t, 'K': 1, 'route': 'numpy', 'crop': None})
     # hand-picked 32-bit extremes (not multiples of the scale)
@@ -241,6 +258,10 @@ def judge_axis(run, c, r, ev, W, K):
     check_axes(run, '', case, r['g'], r['il'], r['xl'])
     if 'crop' in r:
         check_axes(run, '[cropped]', dict(case, crop=c['crop']), r['crop']['g'], r['crop']['il'], r['crop']['xl'])
+    if 'reblock' in r:
+        check_axes(run, '[re-blocked]', dict(case, reblock=True), r['reblock']['g'], r['il'], r['xl'])
+    if 'from_header' in r:
+        check_axes(run, '[axes-from-header-arrays]', dict(case, from_header=True), r['from_header']['g'], r['il'], r['xl'])
     if ev is not None:          # scaled case: the real header words are the model's words times K
         w = ev['words']
         got = r['words']
